@@ -321,7 +321,9 @@ Kinds == {WellFormedVariants[i].kind : i \in 1 .. Len(WellFormedVariants)}
 \* ------------------------------------------------------------------ states
 Run(cfg, pos) == [t |-> "run", cfg |-> cfg, pos |-> pos, req |-> Req(pos), variant |-> "", kind |-> "", expected |-> FALSE, bytes |-> <<>>]
 CaseOf(st, n, kind, bytes) == [st EXCEPT !.t = "case", !.variant = n, !.kind = kind, !.expected = kind \in Expected(st.req), !.bytes = bytes]
-Wanted(cfg, pos) == Tier = "thorough" \/ cfg = "plain" \/ pos \in CfgSpecific(cfg)
+\* (nocontrol: in BOTH tiers only the positions that cannot reach Session.control)
+Wanted(cfg, pos) == IF cfg = "nocontrol" THEN pos \in CfgSpecific(cfg)
+                    ELSE Tier = "thorough" \/ cfg = "plain" \/ pos \in CfgSpecific(cfg)
 
 PInit == \E cfg \in Cfgs : p = Run(cfg, IF cfg = "nocontrol" THEN "pool.options" ELSE "ctl.options")
 PNext ==
